@@ -91,12 +91,22 @@ fn is_valid_domain(mut s: &str) -> bool {
     true
 }
 
+/// Host names are case-insensitive.
+fn strip_suffix_ignore_ascii_case<'a>(s: &'a str, suffix: &str) -> Option<&'a str> {
+    let idx = s.len().checked_sub(suffix.len())?;
+    if !s.is_char_boundary(idx) {
+        return None;
+    }
+    let (head, tail) = s.split_at(idx);
+    tail.eq_ignore_ascii_case(suffix).then_some(head)
+}
+
 fn parse_host_header<'a>(base_domain: &'a str, host: &'a str) -> Option<VirtualHost<'a>> {
-    if host == base_domain {
+    if host.eq_ignore_ascii_case(base_domain) {
         return Some(VirtualHost::new(base_domain));
     }
 
-    if let Some(bucket) = host.strip_suffix(base_domain).and_then(|h| h.strip_suffix('.')) {
+    if let Some(bucket) = strip_suffix_ignore_ascii_case(host, base_domain).and_then(|h| h.strip_suffix('.')) {
         return Some(VirtualHost::with_bucket(base_domain, bucket));
     }
 
